@@ -1,0 +1,15 @@
+//go:build verif
+
+package cleaner
+
+// VerifLockProbe reports whether the lock of the IdleInvoker is
+// currently free. It is a read-only probe (TryLock followed by Unlock)
+// for the runtime verification harnesses (property C14) and must only
+// be called when no Acquire() or Release() call is in flight.
+func (i *IdleInvoker) VerifLockProbe() bool {
+	if !i.lock.TryLock() {
+		return false
+	}
+	i.lock.Unlock()
+	return true
+}
